@@ -429,6 +429,8 @@ def stepG (s : St Î±) (op : List String) (impl : Option (List String)) : St Î± Ã
   | ["p.auto", i, k] =>
     let r := pStep s (pReg k) (.toAuto (pReg i) (pReg k)) impl
     (if r.2.1.startsWith "ok" then r.1.setMh (pReg k) 2 else r.1, r.2)
+  /- `Parameter(const Parameter&)` on any object: a plain parameter (slicing copy of an auto-correcting one) -/
+  | ["p.plain", i, k] => pStep s (pReg k) (.toPlain (pReg i) (pReg k)) impl
   /- `AutoParameter::operator=` (both auto-correcting) copies the handler; `Parameter::operator=` does not -/
   | ["p.assign", i, k] =>
     let bothAuto := match s.ps (pReg i), s.ps (pReg k) with | some a, some b => a.auto && b.auto | _, _ => false
@@ -598,6 +600,7 @@ def stepS (s : SSt Î±) (op : List String) (impl : Option (List String)) : SSt Î±
     | _, _, _ => bad
   | ["p.copy", i, k] => spStep s (pReg k) (.copy (pReg i) (pReg k)) impl
   | ["p.auto", i, k] => spStep s (pReg k) (.toAuto (pReg i) (pReg k)) impl
+  | ["p.plain", i, k] => spStep s (pReg k) (.toPlain (pReg i) (pReg k)) impl
   | ["p.assign", i, k] => spStep s (pReg k) (.assign (pReg i) (pReg k)) impl
   | ["p.get", k] =>
     match sView s (pReg k) with
